@@ -229,6 +229,7 @@ func checkC07(w *World, r *Report) {
 	checkChainsApplied(w, r)
 	checkEscapeNeverRebound(w, r, escapeFn)
 	checkApplyWritesFilterResult(w, r)
+	checkStringifyIdentityOnStrings(w, r)
 }
 
 func objName(o types.Object) string {
@@ -758,4 +759,106 @@ func checkApplyWritesFilterResult(w *World, r *Report) {
 
 func isNodeRender(g *ssa.Function) bool {
 	return g.Name() == "Render" && g.Signature.Recv() != nil
+}
+
+// checkStringifyIdentityOnStrings — R07.8: turning a value into text leaves text alone.  Every
+// function of the package that maps one interface{} value to a string and singles out the case
+// "it is a string already" returns, for that case, the very string it was given — not something
+// computed from it.  Escaping is applied to the stringified value; a stringifier that repairs,
+// trims or normalises strings changes bytes that escape must pass through (or hides bytes from
+// it).
+func checkStringifyIdentityOnStrings(w *World, r *Report) {
+	n := 0
+	for _, fn := range w.pkgFuncs() {
+		sig := fn.Signature
+		if sig.Results().Len() != 1 || fn.Synthetic != "" {
+			continue
+		}
+		if b, ok := sig.Results().At(0).Type().Underlying().(*types.Basic); !ok || b.Kind() != types.String {
+			continue
+		}
+		var param *ssa.Parameter
+		cnt := 0
+		for i, p := range fn.Params {
+			if i == 0 && sig.Recv() != nil {
+				continue
+			}
+			cnt++
+			if it, ok := p.Type().Underlying().(*types.Interface); ok && it.NumMethods() == 0 {
+				param = p
+			}
+		}
+		if param == nil || cnt != 1 {
+			continue
+		}
+		instrsOf(fn, func(in ssa.Instruction) {
+			ta, ok := in.(*ssa.TypeAssert)
+			if !ok || unspill(ta.X) != ssa.Value(param) || !types.Identical(ta.AssertedType, types.Typ[types.String]) {
+				return
+			}
+			var sv ssa.Value = ta
+			if ta.CommaOk {
+				sv = nil
+				for _, ref := range *ta.Referrers() {
+					if ex, ok := ref.(*ssa.Extract); ok && ex.Index == 0 {
+						sv = ex
+					}
+				}
+				if sv == nil {
+					return
+				}
+			}
+			n++
+			derived := map[ssa.Value]bool{sv: true}
+			for changed := true; changed; {
+				changed = false
+				instrsOf(fn, func(x ssa.Instruction) {
+					v, ok := x.(ssa.Value)
+					if !ok || derived[v] {
+						return
+					}
+					for _, op := range x.Operands(nil) {
+						if *op != nil && derived[*op] {
+							switch x.(type) {
+							case *ssa.Call, *ssa.BinOp, *ssa.Slice, *ssa.Convert, *ssa.Phi, *ssa.Extract, *ssa.ChangeType, *ssa.MakeInterface:
+								derived[v] = true
+								changed = true
+							}
+							return
+						}
+					}
+				})
+			}
+			bad := ""
+			instrsOf(fn, func(x ssa.Instruction) {
+				ret, ok := x.(*ssa.Return)
+				if !ok || bad != "" {
+					return
+				}
+				res := ret.Results[0]
+				if res == sv || !derived[res] {
+					return
+				}
+				if ph, ok := res.(*ssa.Phi); ok {
+					okAll := true
+					for _, e := range ph.Edges {
+						if derived[e] && e != sv {
+							okAll = false
+						}
+					}
+					if okAll {
+						return
+					}
+				}
+				bad = w.posOf(ret.Pos())
+			})
+			construct := "a string is stringified as itself"
+			if bad == "" {
+				r.ok("R07.8", ssaName(fn), construct, w.posOf(in.Pos()), "the string case returns the asserted value", true)
+			} else {
+				r.bad("R07.8", ssaName(fn), construct, w.posOf(in.Pos()), "for a value that is a string already the function returns (at "+bad+") something computed from it instead of the string itself: bytes of the input are changed or dropped before escape sees them, so the escaped output no longer decodes to the original text")
+			}
+		})
+	}
+	r.floor("stringifiers with a string case", n, 1)
 }
